@@ -1,9 +1,584 @@
 /-
-Helper lemmas for C13, part 8: bit slicing of `mpf2multiword`.
+Helper lemmas for C13, part 8: a mantissa chunk is a float (`chunk_float`), bit slicing of
+`mpf2multiword`.
 -/
 import FAVerif.Lemmas.ConvExp
+import FAVerif.Lemmas.ConvBin2
 
 namespace FAVerif.Conv
 open FAVerif.FP
+
+/-! ### patterns with the sign bit set -/
+
+theorem fields_add_signBit (f : Fmt) (hp : 1 ≤ f.p) (x : Nat) (hx : x < f.signBit) :
+    fields f (f.signBit + x) = ⟨true, (fields f x).e, (fields f x).m⟩ ∧ (fields f x).sign = false := by
+  have hs := signBit_eq f hp
+  unfold fields
+  rw [hs] at hx ⊢
+  generalize 2 ^ f.fracBits = A at *
+  generalize 2 ^ f.ew = B at *
+  have hA : 0 < A := by
+    rcases Nat.eq_zero_or_pos A with h | h
+    · subst h; simp at hx
+    · exact h
+  have hB : 0 < B := by
+    rcases Nat.eq_zero_or_pos B with h | h
+    · subst h; simp at hx
+    · exact h
+  have hBA : 0 < B * A := Nat.mul_pos hB hA
+  have h0 : x / (B * A) = 0 := Nat.div_eq_of_lt hx
+  have h1 : (B * A + x) / (B * A) = 1 := by
+    rw [Nat.add_div_left _ hBA, h0]
+  have h2 : (B * A + x) / A = B + x / A := by
+    rw [Nat.mul_comm B A, Nat.mul_add_div hA]
+  have h3 : (B * A + x) % A = x % A := by
+    rw [Nat.mul_comm B A, Nat.mul_add_mod]
+  rw [h1, h2, h3, Nat.add_mod_left, h0]
+  simp
+
+theorem decode_eq_of_fields (f : Fmt) (b b' : Nat) (h1 : (fields f b').e = (fields f b).e)
+    (h2 : (fields f b').m = (fields f b).m) (s : Bool) (m : Nat) (e : Int) (hd : decode f b = .fin s m e) :
+    decode f b' = .fin (fields f b').sign m e := by
+  unfold decode at hd ⊢
+  simp only at hd ⊢
+  rw [h1, h2]
+  by_cases c1 : (fields f b).e = f.expMax
+  · simp only [c1, if_true] at hd
+    split at hd <;> cases hd
+  · simp only [c1, if_false] at hd ⊢
+    by_cases c2 : (fields f b).e = 0
+    · simp only [c2, if_true] at hd ⊢
+      injection hd with _ hm he
+      rw [hm, he]
+    · simp only [c2, if_false] at hd ⊢
+      injection hd with _ hm he
+      rw [hm, he]
+
+/-- decode of a signed packed float -/
+theorem decode_pack (f : Fmt) (hew : 2 ≤ f.ew) (hp : 1 ≤ f.p) (s : Bool) (m : Nat) (e : Int) (hwf : WF f m e) :
+    decode f ((if s then f.signBit else 0) + packMag f m e) = .fin s m e ∧
+    (if s then f.signBit else 0) + packMag f m e < 2 ^ f.width ∧
+    isFiniteBits f ((if s then f.signBit else 0) + packMag f m e) = true := by
+  have hpf := packMag_facts f hew hp m e hwf
+  have hsb := signBit_lt_W f hp
+  have hw2 := width_pow f hp
+  -- decode of the magnitude
+  have hmag : decode f (packMag f m e) = .fin false m e ∧ (fields f (packMag f m e)).e ≠ f.expMax := by
+    by_cases hsub : m < 2 ^ (f.p - 1)
+    · have hpm : packMag f m e = m := by unfold packMag; simp [hsub]
+      have hF := packMag_sub_facts f hew hp m hsub
+      have hE3 := expMax_ge f hew
+      rw [hpm]
+      have hne : (fields f m).e ≠ f.expMax := by rw [hF]; simp; omega
+      refine ⟨?_, hne⟩
+      have := decode_sub f m hne (by rw [hF])
+      rw [this, hF]
+      rcases hwf.norm with h | h
+      · omega
+      · rw [h]
+    · have hn : 2 ^ (f.p - 1) ≤ m := by omega
+      have hd := decode_packMag_normal f hew hp m e hwf hn
+      refine ⟨hd.1, ?_⟩
+      intro hc
+      have := hd.2.2
+      unfold isInfb at this
+      have hnan := hd.2.1
+      unfold isNaNb at hnan
+      rw [hc] at this hnan
+      simp at this hnan
+      exact this hnan
+  cases s
+  · simp only [Bool.false_eq_true, if_false, Nat.zero_add]
+    refine ⟨hmag.1, by omega, ?_⟩
+    rw [isFiniteBits_iff]; exact hmag.2
+  · simp only [if_true]
+    obtain ⟨hF, _⟩ := fields_add_signBit f hp _ hpf.2.2
+    refine ⟨?_, by omega, ?_⟩
+    · have := decode_eq_of_fields f (packMag f m e) (f.signBit + packMag f m e) (by rw [hF]) (by rw [hF]) _ _ _ hmag.1
+      rw [this, hF]
+    · rw [isFiniteBits_iff, hF]; exact hmag.2
+
+theorem packMag_ne_zero (f : Fmt) (m : Nat) (e : Int) (hm : m ≠ 0) (hwf : WF f m e) : packMag f m e ≠ 0 := by
+  unfold packMag
+  split
+  · exact hm
+  · rename_i h
+    have hpos := Nat.two_pow_pos (f.p - 1)
+    have hge := hwf.ge
+    have : 1 ≤ (e - f.emin + 1).toNat := by omega
+    have : 2 ^ (f.p - 1) ≤ (e - f.emin + 1).toNat * 2 ^ (f.p - 1) := Nat.le_mul_of_pos_left _ (by omega)
+    omega
+
+/-- what `mpf2float` (support port) returns on the canonical tuple of a well-formed float -/
+theorem wf_float (f : Fmt) (hew : 2 ≤ f.ew) (hp : 1 ≤ f.p) (hpm : f.p ≤ 2 ^ (f.ew - 1)) (s : Bool) (m : Nat) (e : Int)
+    (hm : m ≠ 0) (hwf : WF f m e) :
+    GoodWord f (mpf2floatC f (canonT (sgnNat s) m e)) ∧
+    gridInt f (mpf2floatC f (canonT (sgnNat s) m e)) = (if s then -1 else 1) * ((m * 2 ^ (e - f.emin).toNat : Nat) : Int) ∧
+    mpf2floatC f (canonT (sgnNat s) m e) % f.signBit ≠ 0 := by
+  rw [mpf2floatC_canon f hew hp hpm s m e hwf hm]
+  obtain ⟨hd, hlt, hfin⟩ := decode_pack f hew hp s m e hwf
+  have hpf := packMag_facts f hew hp m e hwf
+  refine ⟨⟨hlt, hfin⟩, ?_, ?_⟩
+  · unfold gridInt
+    rw [finParts_of_decode _ _ _ _ _ hd]
+  · have hne := packMag_ne_zero f m e hm hwf
+    cases s
+    · simp only [Bool.false_eq_true, if_false, Nat.zero_add]
+      rw [Nat.mod_eq_of_lt hpf.2.2]; exact hne
+    · simp only [if_true]
+      rw [Nat.add_mod_left, Nat.mod_eq_of_lt hpf.2.2]; exact hne
+
+/-- **a mantissa chunk is a float**: `c·2^E` with at most `p` bits, inside the exponent range. -/
+theorem chunk_float (f : Fmt) (hew : 2 ≤ f.ew) (hp : 1 ≤ f.p) (hpm : f.p ≤ 2 ^ (f.ew - 1)) (s : Bool) (c : Nat) (E : Int)
+    (hc : c ≠ 0) (hL : bitLen c ≤ f.p) (hE : f.emin ≤ E) (htop : E + bitLen c ≤ maxexp f) :
+    GoodWord f (mpf2floatC f (canonT (sgnNat s) c E)) ∧
+    gridInt f (mpf2floatC f (canonT (sgnNat s) c E)) = (if s then -1 else 1) * ((c * 2 ^ (E - f.emin).toNat : Nat) : Int) ∧
+    mpf2floatC f (canonT (sgnNat s) c E) % f.signBit ≠ 0 := by
+  have hLpos := bitLen_pos c hc
+  have hemax := emaxUlp_maxexp f hew hp
+  have hpp := pow_p_eq f hp
+  by_cases hA : f.emin ≤ E - ((f.p - bitLen c : Nat) : Int)
+  · -- normal form
+    obtain ⟨k, hk⟩ : ∃ k, k = f.p - bitLen c := ⟨_, rfl⟩
+    rw [← hk] at hA
+    have hm' : c * 2 ^ k ≠ 0 := by
+      have := Nat.two_pow_pos k
+      intro hz; rcases Nat.mul_eq_zero.mp hz with h' | h' <;> omega
+    have hwf : WF f (c * 2 ^ k) (E - k) := by
+      refine ⟨?_, hA, Or.inl ?_, ?_⟩
+      · calc c * 2 ^ k < 2 ^ bitLen c * 2 ^ k := Nat.mul_lt_mul_of_lt_of_le (lt_pow_bitLen c) (Nat.le_refl _) (Nat.two_pow_pos _)
+          _ = 2 ^ f.p := by rw [← Nat.pow_add]; congr 1; omega
+      · calc 2 ^ (f.p - 1) = 2 ^ (bitLen c - 1) * 2 ^ k := by rw [← Nat.pow_add]; congr 1; omega
+          _ ≤ c * 2 ^ k := Nat.mul_le_mul_right _ (pow_bitLen_le c hc)
+      · rw [hemax]; omega
+    have hcan : canonT (sgnNat s) c E = canonT (sgnNat s) (c * 2 ^ k) (E - k) := by
+      rw [canonT_shift _ _ _ _ hc]; congr 1; omega
+    rw [hcan]
+    obtain ⟨h1, h2, h3⟩ := wf_float f hew hp hpm s _ _ hm' hwf
+    refine ⟨h1, ?_, h3⟩
+    rw [h2]
+    congr 2
+    rw [Nat.mul_assoc, ← Nat.pow_add]
+    congr 2; omega
+  · -- subnormal form
+    obtain ⟨k, hk⟩ : ∃ k : Nat, (k : Int) = E - f.emin := ⟨(E - f.emin).toNat, by omega⟩
+    have hm' : c * 2 ^ k ≠ 0 := by
+      have := Nat.two_pow_pos k
+      intro hz; rcases Nat.mul_eq_zero.mp hz with h' | h' <;> omega
+    have hwf : WF f (c * 2 ^ k) f.emin := by
+      have hlt : c * 2 ^ k < 2 ^ (f.p - 1) := by
+        calc c * 2 ^ k < 2 ^ bitLen c * 2 ^ k := Nat.mul_lt_mul_of_lt_of_le (lt_pow_bitLen c) (Nat.le_refl _) (Nat.two_pow_pos _)
+          _ = 2 ^ (bitLen c + k) := by rw [← Nat.pow_add]
+          _ ≤ 2 ^ (f.p - 1) := Nat.pow_le_pow_right (by omega) (by omega)
+      refine ⟨by omega, Int.le_refl _, Or.inr rfl, ?_⟩
+      rw [hemax]
+      have := two_pow_ew_pos f hew
+      have he := emin_eq f
+      have hmx : maxexp f = 2 ^ (f.ew - 1) := rfl
+      have hfb : f.fracBits = f.p - 1 := rfl
+      generalize 2 ^ (f.ew - 1) = K at *
+      rw [he, hmx, hfb]; omega
+    have hcan : canonT (sgnNat s) c E = canonT (sgnNat s) (c * 2 ^ k) f.emin := by
+      rw [canonT_shift _ _ _ _ hc]; congr 1; omega
+    rw [hcan]
+    obtain ⟨h1, h2, h3⟩ := wf_float f hew hp hpm s _ _ hm' hwf
+    refine ⟨h1, ?_, h3⟩
+    rw [h2]
+    have e1 : (f.emin - f.emin).toNat = 0 := by omega
+    have e2 : (E - f.emin).toNat = k := by omega
+    rw [e1, e2]; simp
+
+/-! ### bit slicing -/
+
+theorem mod_split (x a b : Nat) : x % 2 ^ (a + b) = (x / 2 ^ a % 2 ^ b) * 2 ^ a + x % 2 ^ a := by
+  rw [Nat.pow_add, Nat.mod_mul]; ring
+
+theorem div_pow_sub (man o d : Nat) (h : d ≤ o) : man / 2 ^ (o - d) / 2 ^ d = man / 2 ^ o := by
+  rw [Nat.div_div_eq_div_mul, ← Nat.pow_add]; congr 2; omega
+
+/-- the "skip heading zero bits" step: shifting a window with `d` leading zeros down by `d` -/
+theorem adjust_window (man o w : Nat) (hw : 1 ≤ w)
+    (hne : man / 2 ^ o % 2 ^ w ≠ 0) (hdo : w - bitLen (man / 2 ^ o % 2 ^ w) ≤ o) :
+    let d := w - bitLen (man / 2 ^ o % 2 ^ w)
+    bitLen (man / 2 ^ (o - d) % 2 ^ w) = w ∧ man % 2 ^ (o + w) = man % 2 ^ (o - d + w) := by
+  intro d
+  obtain ⟨m1, hm1⟩ : ∃ m1, m1 = man / 2 ^ o % 2 ^ w := ⟨_, rfl⟩
+  have hm1lt : m1 < 2 ^ w := by rw [hm1]; exact Nat.mod_lt _ (Nat.two_pow_pos _)
+  have hL : bitLen m1 ≤ w := bitLen_le_of_lt _ _ hm1lt
+  have hLpos : 1 ≤ bitLen m1 := bitLen_pos _ (by rw [hm1]; exact hne)
+  have hd : d = w - bitLen m1 := by rw [hm1]
+  have hdw : d + bitLen m1 = w := by omega
+  -- the shifted window
+  have hx := mod_split (man / 2 ^ (o - d)) d (w - d)
+  have e1 : d + (w - d) = w := by omega
+  rw [e1, div_pow_sub man o d (by rw [hd]; rw [hm1]; exact hdo)] at hx
+  have hy : man / 2 ^ o % 2 ^ (w - d) = m1 := by
+    have h1 : m1 % 2 ^ (w - d) = man / 2 ^ o % 2 ^ (w - d) := by
+      rw [hm1]; exact Nat.mod_mod_of_dvd _ (Nat.pow_dvd_pow 2 (by omega))
+    have h2 : m1 < 2 ^ (w - d) := by
+      have : w - d = bitLen m1 := by omega
+      rw [this]; exact lt_pow_bitLen m1
+    rw [← h1, Nat.mod_eq_of_lt h2]
+  rw [hy] at hx
+  obtain ⟨r, hr⟩ : ∃ r, r = man / 2 ^ (o - d) % 2 ^ d := ⟨_, rfl⟩
+  have hrlt : r < 2 ^ d := by rw [hr]; exact Nat.mod_lt _ (Nat.two_pow_pos _)
+  rw [← hr] at hx
+  have hm1ne : m1 ≠ 0 := by rw [hm1]; exact hne
+  constructor
+  · rw [hx]
+    apply bitLen_unique _ _ hw
+    · have h1 := pow_bitLen_le m1 hm1ne
+      calc 2 ^ (w - 1) = 2 ^ (bitLen m1 - 1) * 2 ^ d := by rw [← Nat.pow_add]; congr 1; omega
+        _ ≤ m1 * 2 ^ d := Nat.mul_le_mul_right _ h1
+        _ ≤ m1 * 2 ^ d + r := by omega
+    · have h1 := lt_pow_bitLen m1
+      calc m1 * 2 ^ d + r < m1 * 2 ^ d + 2 ^ d := by omega
+        _ = (m1 + 1) * 2 ^ d := by ring
+        _ ≤ 2 ^ bitLen m1 * 2 ^ d := Nat.mul_le_mul_right _ (by omega)
+        _ = 2 ^ w := by rw [← Nat.pow_add]; congr 1; omega
+  · -- the bits between the two window tops are zero
+    have hsp := mod_split man o w
+    rw [← hm1] at hsp
+    have hlt : man % 2 ^ (o + w) < 2 ^ (o - d + w) := by
+      rw [hsp]
+      have h0 : man % 2 ^ o < 2 ^ o := Nat.mod_lt _ (Nat.two_pow_pos _)
+      have h1 := lt_pow_bitLen m1
+      calc m1 * 2 ^ o + man % 2 ^ o < m1 * 2 ^ o + 2 ^ o := by omega
+        _ = (m1 + 1) * 2 ^ o := by ring
+        _ ≤ 2 ^ bitLen m1 * 2 ^ o := Nat.mul_le_mul_right _ (by omega)
+        _ = 2 ^ (o - d + w) := by
+            rw [← Nat.pow_add]; congr 1
+            have : d ≤ o := by rw [hd]; rw [hm1]; exact hdo
+            omega
+    have hdv : man % 2 ^ (o + w) % 2 ^ (o - d + w) = man % 2 ^ (o - d + w) :=
+      Nat.mod_mod_of_dvd _ (Nat.pow_dvd_pow 2 (by omega))
+    rw [← hdv, Nat.mod_eq_of_lt hlt]
+
+/-- value of `±n·2^exp` in units of `2^emin` -/
+def gridOf (f : Fmt) (s : Bool) (n : Nat) (exp : Int) : Int :=
+  (if s then -1 else 1) * ((n * 2 ^ (exp - f.emin).toNat : Nat) : Int)
+
+theorem gridOf_add (f : Fmt) (s : Bool) (c r o : Nat) (exp : Int) (hE : f.emin ≤ exp) :
+    gridOf f s c (exp + o) + gridOf f s r exp = gridOf f s (c * 2 ^ o + r) exp := by
+  unfold gridOf
+  have e1 : (exp + (o : Int) - f.emin).toNat = (exp - f.emin).toNat + o := by omega
+  rw [e1, Nat.pow_add]
+  cases s <;> simp <;> push_cast <;> ring
+
+theorem gridOf_fits (f : Fmt) (s : Bool) (n : Nat) (exp : Int) (prec : Nat) (h : bitLen n ≤ prec) :
+    sigBits (gridOf f s n exp).natAbs ≤ prec := by
+  have hgen : ∀ k : Nat, ((if s = true then (-1:Int) else 1) * (k : Int)).natAbs = k := by
+    intro k; cases s <;> simp
+  have hnat : (gridOf f s n exp).natAbs = n * 2 ^ (exp - f.emin).toNat := by
+    unfold gridOf; exact hgen _
+  rw [hnat]
+  by_cases hn : n = 0
+  · subst hn; simp [sigBits_zero]
+  · unfold sigBits
+    rw [(tz_mul_pow n _ hn).2]
+    have := sigBits_le_bitLen n
+    unfold sigBits at this; omega
+
+/-- no window of `w` consecutive mantissa bits is entirely zero -/
+def NoZeroWindow (man w : Nat) : Prop := ∀ k, k + w ≤ bitLen man → man / 2 ^ k % 2 ^ w ≠ 0
+
+/-- one iteration of the window logic of `mpf2multiword` -/
+theorem window_step (man o w p : Nat) (hw : 1 ≤ w) (hwp : w ≤ p) (hne : man / 2 ^ o % 2 ^ w ≠ 0) :
+    ∃ o' c, (if w - bitLen (man / 2 ^ o % 2 ^ w) > 0 ∧ o ≥ w - bitLen (man / 2 ^ o % 2 ^ w)
+              then o - (w - bitLen (man / 2 ^ o % 2 ^ w)) else o) = o' ∧
+      (if w - bitLen (man / 2 ^ o % 2 ^ w) > 0 ∧ o ≥ w - bitLen (man / 2 ^ o % 2 ^ w)
+              then man / 2 ^ o' % 2 ^ w else man / 2 ^ o % 2 ^ w) = c ∧
+      o' ≤ o ∧ c = man / 2 ^ o' % 2 ^ w ∧ c ≠ 0 ∧ man % 2 ^ (o + w) = man % 2 ^ (o' + w) ∧ (p ≤ o' → bitLen c = w) := by
+  have hlt : man / 2 ^ o % 2 ^ w < 2 ^ w := Nat.mod_lt _ (Nat.two_pow_pos _)
+  have hL : bitLen (man / 2 ^ o % 2 ^ w) ≤ w := bitLen_le_of_lt _ _ hlt
+  by_cases hadj : w - bitLen (man / 2 ^ o % 2 ^ w) > 0 ∧ o ≥ w - bitLen (man / 2 ^ o % 2 ^ w)
+  · obtain ⟨hb, hm⟩ := adjust_window man o w hw hne hadj.2
+    refine ⟨o - (w - bitLen (man / 2 ^ o % 2 ^ w)), man / 2 ^ (o - (w - bitLen (man / 2 ^ o % 2 ^ w))) % 2 ^ w, ?_, ?_, ?_, rfl, ?_, hm, fun _ => hb⟩
+    · simp only [hadj, and_self, if_true]
+    · simp only [hadj, and_self, if_true]
+    · omega
+    · intro h0; rw [h0, bitLen_zero] at hb; omega
+  · refine ⟨o, man / 2 ^ o % 2 ^ w, ?_, ?_, Nat.le_refl _, rfl, hne, rfl, ?_⟩
+    · simp only [hadj, if_false]
+    · simp only [hadj, if_false]
+    · intro hpo
+      by_contra hc
+      have : w - bitLen (man / 2 ^ o % 2 ^ w) > 0 := by omega
+      have : ¬ (o ≥ w - bitLen (man / 2 ^ o % 2 ^ w)) := fun h => hadj ⟨this, h⟩
+      omega
+
+theorem odd_mod_pow (man w : Nat) (hodd : man % 2 = 1) (hw : 1 ≤ w) : man % 2 ^ w ≠ 0 := by
+  have : man % 2 ^ w % 2 = man % 2 := by
+    have e : w = (w - 1) + 1 := by omega
+    rw [e, Nat.pow_succ]; exact Nat.mod_mul_left_mod _ _ _
+  omega
+
+theorem multiwordLoop_spec (f : Fmt) (prec : Nat) (hew : 2 ≤ f.ew) (hp : 1 ≤ f.p) (hpm : f.p ≤ 2 ^ (f.ew - 1))
+    (s : Bool) (man : Nat) (exp bc : Int) (p : Nat) (hp1 : 1 ≤ p) (hpf : p ≤ f.p) (hpp : p ≤ prec)
+    (hodd : man % 2 = 1) (hE : f.emin ≤ exp) (htop : exp + bitLen man ≤ maxexp f) (hbl : bitLen man ≤ prec)
+    (hnz : NoZeroWindow man (min (bitLen man) p)) :
+    ∀ (fuel : Nat) (st : MwState), st.offset + st.w + 1 ≤ fuel → st.offset + st.w ≤ bitLen man → 1 ≤ st.w →
+      (st.w = min (bitLen man) p ∨ (st.offset = 0 ∧ st.w < p)) →
+      ∃ tail, multiwordLoop f prec ⟨sgnNat s, man, exp, bc⟩ p none fuel st = .ok (st.result ++ tail) ∧
+        tail ≠ [] ∧ (∀ w ∈ tail, GoodWord f w) ∧
+        gsum f tail = gridOf f s (man % 2 ^ (st.offset + st.w)) exp ∧ FitsAll f prec tail := by
+  intro fuel
+  induction fuel with
+  | zero => intro st h; omega
+  | succ k ih =>
+    intro st hfuel hT hw hmode
+    obtain ⟨w, o, res⟩ := st
+    simp only at hfuel hT hw hmode ⊢
+    have hwp : w ≤ p := by
+      rcases hmode with h | h
+      · rw [h]; exact Nat.min_le_right _ _
+      · omega
+    -- the window is not zero
+    have hne : man / 2 ^ o % 2 ^ w ≠ 0 := by
+      rcases hmode with h | h
+      · rw [h]; exact hnz o (by rw [← h]; exact hT)
+      · rw [h.1]; simp; exact odd_mod_pow man w hodd hw
+    obtain ⟨o', c, ho', hc, hle, hcdef, hc0, hmod, hfull⟩ := window_step man o w p hw hwp hne
+    have hclt : c < 2 ^ w := by rw [hcdef]; exact Nat.mod_lt _ (Nat.two_pow_pos _)
+    have hcL : bitLen c ≤ w := bitLen_le_of_lt _ _ hclt
+    -- the chunk is a float
+    have hsig : sigBits c ≤ prec := by have := sigBits_le_bitLen c; omega
+    have hpos : mpfPos prec ⟨sgnNat s, c, exp + (o' : Int), (bitLen c : Int)⟩ = canonT (sgnNat s) c (exp + o') := by
+      unfold mpfPos MpfT.isSpecial
+      have hcb : (c == 0) = false := by simpa using hc0
+      simp only [hcb, Bool.false_and, Bool.false_eq_true, if_false]
+      exact normalize_exact _ _ _ _ hsig
+    obtain ⟨hgood, hgrid, hnzero⟩ := chunk_float f hew hp hpm s c (exp + o') hc0 (by omega) (by omega) (by omega)
+    generalize hx1 : mpf2floatC f (canonT (sgnNat s) c (exp + (o' : Int))) = x1 at *
+    have hgx : gridInt f x1 = gridOf f s c (exp + o') := hgrid
+    have hfitT : ∀ T, sigBits (gridOf f s (man % 2 ^ T) exp).natAbs ≤ prec := by
+      intro T
+      apply gridOf_fits
+      have : man % 2 ^ T ≤ man := Nat.mod_le _ _
+      have := bitLen_mono this
+      omega
+    have hsplit : man % 2 ^ (o' + w) = c * 2 ^ o' + man % 2 ^ o' := by rw [mod_split, ← hcdef]
+    unfold multiwordLoop
+    simp only [ho', hc, hpos, hx1, hnzero, if_false]
+    by_cases ho0 : o' = 0
+    · -- last word
+      simp only [ho0, if_true]
+      refine ⟨[x1], rfl, by simp, ?_, ?_, ?_⟩
+      · intro y hy; simp at hy; rw [hy]; exact hgood
+      · unfold gsum; simp only [List.map_cons, List.map_nil, List.sum_cons, List.sum_nil, Int.add_zero]
+        rw [hgx, hmod, hsplit, ho0]
+        simp [gridOf]
+      · refine ⟨?_, trivial⟩
+        have : gsum f [x1] = gridOf f s (man % 2 ^ (o + w)) exp := by
+          unfold gsum; simp only [List.map_cons, List.map_nil, List.sum_cons, List.sum_nil, Int.add_zero]
+          rw [hgx, hmod, hsplit, ho0]; simp [gridOf]
+        rw [this]; exact hfitT _
+    · simp only [ho0, if_false, Option.isSome_none, Bool.false_eq_true, false_and, false_or]
+      -- both continuing branches lead to a state with window top `o'`
+      have hnext : ∀ st' : MwState, st'.offset + st'.w = o' → 1 ≤ st'.w →
+          (st'.w = min (bitLen man) p ∨ (st'.offset = 0 ∧ st'.w < p)) → st'.result = res ++ [x1] →
+          ∃ tail, multiwordLoop f prec ⟨sgnNat s, man, exp, bc⟩ p none k st' = .ok (res ++ tail) ∧
+            tail ≠ [] ∧ (∀ w ∈ tail, GoodWord f w) ∧
+            gsum f tail = gridOf f s (man % 2 ^ (o + w)) exp ∧ FitsAll f prec tail := by
+        intro st' hT' hw' hmode' hres'
+        obtain ⟨tail', hl, _, hg', hs', hf'⟩ := ih st' (by omega) (by omega) hw' hmode'
+        rw [hT'] at hs'
+        have hsum : gsum f (x1 :: tail') = gridOf f s (man % 2 ^ (o + w)) exp := by
+          unfold gsum at hs' ⊢
+          simp only [List.map_cons, List.sum_cons]
+          rw [hs', hgx, gridOf_add f s c _ o' exp hE, hmod, hsplit]
+        refine ⟨x1 :: tail', ?_, by simp, ?_, hsum, ⟨by rw [hsum]; exact hfitT _, hf'⟩⟩
+        · rw [hl, hres']; simp
+        · intro y hy
+          simp only [List.mem_cons] at hy
+          rcases hy with rfl | hy
+          · exact hgood
+          · exact hg' y hy
+      by_cases hlast : o' < p
+      · simp only [hlast, if_true]
+        exact hnext ⟨o', 0, res ++ [x1]⟩ (by simp) (by simp; omega) (Or.inr ⟨rfl, hlast⟩) rfl
+      · simp only [hlast, if_false]
+        have hfw : bitLen c = w := hfull (by omega)
+        have hwfull : w = min (bitLen man) p := by
+          rcases hmode with h | h
+          · exact h
+          · omega
+        exact hnext ⟨w, o' - bitLen c, res ++ [x1]⟩ (by simp; omega) hw (Or.inl hwfull) rfl
+
+theorem canonI_gridOf (f : Fmt) (s : Bool) (man : Nat) (exp : Int) (hodd : man % 2 = 1) (hE : f.emin ≤ exp) :
+    canonI (gridOf f s man exp) f.emin = ⟨sgnNat s, man, exp, bitLen man⟩ := by
+  have hm : man ≠ 0 := by omega
+  obtain ⟨k, hk⟩ : ∃ k : Nat, (exp - f.emin).toNat = k := ⟨_, rfl⟩
+  have hgen : ∀ n : Nat, ((if s = true then (-1:Int) else 1) * (n : Int)).natAbs = n := by
+    intro n; cases s <;> simp
+  unfold canonI gridOf
+  rw [hk, hgen, canonT_shift _ _ _ _ hm]
+  have he : f.emin + (k : Int) = exp := by omega
+  rw [he, canonT_fields _ _ _ hm]
+  have ht : tz man = 0 := tz_odd man hodd
+  have ho : oddPart man = man := by unfold oddPart; rw [ht]; simp
+  have hsb : sigBits man = bitLen man := by unfold sigBits; rw [ho]
+  rw [ho, ht, hsb]
+  have hpos : (0:Int) < ((man * 2 ^ k : Nat) : Int) := by
+    have : 0 < man * 2 ^ k := Nat.mul_pos (by omega) (Nat.two_pow_pos _)
+    omega
+  congr 1
+  · cases s <;> simp [sgnNat] <;> omega
+  · simp
+
+/-- **mpf2multiword** on a normalised in-range mpf whose mantissa has no all-zero window: the words are
+finite floats, their exact sum is the input, and `multiword2mpf` returns the input tuple. -/
+theorem multiword_spec (f : Fmt) (prec : Nat) (hew : 2 ≤ f.ew) (hp : 1 ≤ f.p) (hpm : f.p ≤ 2 ^ (f.ew - 1))
+    (s : Bool) (man : Nat) (exp bc : Int) (p? : Option Nat)
+    (hp1 : 1 ≤ p?.getD f.p) (hpf : p?.getD f.p ≤ f.p) (hpp : p?.getD f.p ≤ prec)
+    (hodd : man % 2 = 1) (hE : f.emin ≤ exp) (htop : exp + bitLen man ≤ maxexp f) (hbl : bitLen man ≤ prec)
+    (hnz : NoZeroWindow man (min (bitLen man) (p?.getD f.p))) :
+    ∃ ws, mpf2multiword f prec ⟨sgnNat s, man, exp, bc⟩ p? none = .ok ws ∧ ws ≠ [] ∧
+      (∀ w ∈ ws, GoodWord f w) ∧ gsum f ws = gridOf f s man exp ∧ FitsAll f prec ws := by
+  have hm : man ≠ 0 := by omega
+  have hblpos := bitLen_pos man hm
+  obtain ⟨tail, hl, hne, hg, hs, hf⟩ := multiwordLoop_spec f prec hew hp hpm s man exp bc (p?.getD f.p) hp1 hpf hpp hodd hE htop hbl hnz
+    (bitLen man + 2) ⟨min (bitLen man) (p?.getD f.p), bitLen man - p?.getD f.p, []⟩
+    (by simp only; omega) (by simp only; omega) (by simp only; omega) (Or.inl rfl)
+  refine ⟨tail, ?_, hne, hg, ?_, hf⟩
+  · unfold mpf2multiword
+    have : ¬ (p?.getD f.p > f.p) := by omega
+    simp only [this, if_false]
+    have h1 : ¬ ((none : Option Nat) = some 1) := by simp
+    simp only [h1, if_false, hl, List.nil_append]
+  · rw [hs]
+    simp only
+    have : bitLen man - p?.getD f.p + min (bitLen man) (p?.getD f.p) = bitLen man := by omega
+    rw [this, Nat.mod_eq_of_lt (lt_pow_bitLen man)]
+
+/-! ### `RSpec` is satisfiable: rounding toward zero (truncation to `p` bits) -/
+
+/-- a concrete rounding step: keep the `p` leading bits of the mantissa (round toward zero) -/
+def truncR (f : Fmt) (x : MpfT) : Nat :=
+  if x.man = 0 then 0
+  else
+    let L := bitLen x.man
+    let c := if L ≤ f.p then x.man else x.man / 2 ^ (L - f.p)
+    let E : Int := if L ≤ f.p then x.exp else x.exp + ((L - f.p : Nat) : Int)
+    mpf2floatC f (canonT x.sign c E)
+
+theorem gridMax_bitLen (f : Fmt) (hew : 2 ≤ f.ew) (hp : 1 ≤ f.p) (n : Nat) (h : n ≤ gridMax f) :
+    (bitLen n : Int) ≤ (maxexp f : Int) - f.emin := by
+  have hemax := emaxUlp_maxexp f hew hp
+  have hlt : n < 2 ^ (f.p + (f.emaxUlp - f.emin).toNat) := by
+    unfold gridMax at h
+    have : (2 ^ f.p - 1) * 2 ^ (f.emaxUlp - f.emin).toNat < 2 ^ f.p * 2 ^ (f.emaxUlp - f.emin).toNat :=
+      Nat.mul_lt_mul_of_lt_of_le (by have := Nat.two_pow_pos f.p; omega) (Nat.le_refl _) (Nat.two_pow_pos _)
+    rw [← Nat.pow_add] at this; omega
+  have := bitLen_le_of_lt _ _ hlt
+  have hK := two_pow_ew_pos f hew
+  have he := emin_eq f
+  have hmx : maxexp f = 2 ^ (f.ew - 1) := rfl
+  have hfb : f.fracBits = f.p - 1 := rfl
+  generalize 2 ^ (f.ew - 1) = K at *
+  omega
+
+theorem truncR_spec (f : Fmt) (hew : 2 ≤ f.ew) (hp : 1 ≤ f.p) (hpm : f.p ≤ 2 ^ (f.ew - 1)) : RSpec f (truncR f) := by
+  constructor
+  · have h0 : truncR f fzero = 0 := by simp [truncR, fzero]
+    rw [h0]
+    have hF : fields f 0 = ⟨false, 0, 0⟩ := by unfold fields; simp
+    have hE3 := expMax_ge f hew
+    refine ⟨⟨Nat.two_pow_pos _, ?_⟩, ?_⟩
+    · rw [isFiniteBits_iff, hF]; simp; omega
+    · unfold isZerob; rw [hF]; simp
+  · intro X hX hle
+    have hn : X.natAbs ≠ 0 := by omega
+    have hodd := oddPart_ne_zero _ hn
+    have hmul := oddPart_mul X.natAbs
+    have hbl := bitLen_eq_sigBits_add_tz X.natAbs hn
+    have hgm := gridMax_bitLen f hew hp _ hle
+    have hsb : bitLen (oddPart X.natAbs) = sigBits X.natAbs := rfl
+    rw [canonI_fields X f.emin hX]
+    unfold truncR
+    simp only [hodd, if_false]
+    obtain ⟨sb, hsbd⟩ : ∃ sb : Bool, sb = decide (X < 0) := ⟨_, rfl⟩
+    have hsg : (if X < 0 then 1 else 0) = sgnNat sb := by
+      rw [hsbd]; unfold sgnNat; by_cases h : X < 0 <;> simp [h]
+    rw [hsg]
+    have hXval : X = (if sb then -1 else 1) * (X.natAbs : Int) := by
+      rw [hsbd]
+      by_cases h : X < 0
+      · have : decide (X < 0) = true := by simpa using h
+        rw [this]; simp only [if_true]; omega
+      · have : decide (X < 0) = false := by simpa using h
+        rw [this]; simp only [Bool.false_eq_true, if_false]; omega
+    have hgen : ∀ n : Nat, ((if sb = true then (-1:Int) else 1) * (n : Int)).natAbs = n := by
+      intro n; cases sb <;> simp
+    generalize hO : oddPart X.natAbs = O at *
+    generalize hL : sigBits X.natAbs = L at *
+    generalize hT : tz X.natAbs = T at *
+    rw [hsb]
+    by_cases hfit : L ≤ f.p
+    · simp only [hfit, if_true]
+      obtain ⟨h1, h2, h3⟩ := chunk_float f hew hp hpm sb O (f.emin + T) hodd (by omega) (by omega) (by omega)
+      have e1 : (f.emin + (T : Int) - f.emin).toNat = T := by omega
+      rw [e1, hmul] at h2
+      have hY : gridInt f (mpf2floatC f (canonT (sgnNat sb) O (f.emin + T))) = X := by rw [h2]; exact hXval.symm
+      refine ⟨h1, by rw [hY]; exact hX, by rw [hY]; simp; omega, ?_⟩
+      rw [hY]
+      exact Int.natCast_dvd.mpr ⟨O, by rw [← hmul]; ring⟩
+    · simp only [hfit, if_false]
+      obtain ⟨k, hk⟩ : ∃ k, k = L - f.p := ⟨_, rfl⟩
+      rw [← hk]
+      have hkpos : 0 < k := by omega
+      have hOlt := lt_pow_bitLen O
+      have hOge := pow_bitLen_le O hodd
+      rw [hsb] at hOlt hOge
+      have hc0 : O / 2 ^ k ≠ 0 := by
+        have : 2 ^ k ≤ O := by
+          calc 2 ^ k ≤ 2 ^ (L - 1) := Nat.pow_le_pow_right (by omega) (by omega)
+            _ ≤ O := hOge
+        have := (Nat.le_div_iff_mul_le (Nat.two_pow_pos k)).mpr (by omega : 1 * 2 ^ k ≤ O)
+        omega
+      have hcL : bitLen (O / 2 ^ k) ≤ f.p := by
+        apply bitLen_le_of_lt
+        rw [Nat.div_lt_iff_lt_mul (Nat.two_pow_pos k), ← Nat.pow_add]
+        have : f.p + k = L := by omega
+        rw [this]; exact hOlt
+      have hcL2 : bitLen (O / 2 ^ k) + k ≤ L := by
+        have h1 : O / 2 ^ k * 2 ^ k ≤ O := Nat.div_mul_le_self _ _
+        have h2 := bitLen_mul_pow (O / 2 ^ k) k hc0
+        have h3 := bitLen_mono h1
+        rw [hsb] at h3; omega
+      obtain ⟨h1, h2, h3⟩ := chunk_float f hew hp hpm sb (O / 2 ^ k) (f.emin + T + k) hc0 hcL (by omega) (by omega)
+      have e1 : (f.emin + (T : Int) + (k : Int) - f.emin).toNat = T + k := by omega
+      rw [e1] at h2
+      generalize hy : mpf2floatC f (canonT (sgnNat sb) (O / 2 ^ k) (f.emin + T + k)) = y at *
+      -- |Y| = (O / 2^k) 2^k 2^T ≤ |X| and the remainder is smaller than |Y|
+      have hYabs : (gridInt f y).natAbs = O / 2 ^ k * 2 ^ (T + k) := by
+        rw [h2]; exact hgen _
+      have hdm := Nat.div_add_mod O (2 ^ k)
+      have hrem : O % 2 ^ k < 2 ^ k := Nat.mod_lt _ (Nat.two_pow_pos _)
+      have hq1 : 1 ≤ O / 2 ^ k := Nat.pos_of_ne_zero hc0
+      have hXabs : X.natAbs = (O / 2 ^ k * 2 ^ k + O % 2 ^ k) * 2 ^ T := by
+        rw [← hmul]; congr 1; rw [Nat.mul_comm]; exact hdm.symm
+      have hdiff : X - gridInt f y = (if sb then -1 else 1) * (((O % 2 ^ k) * 2 ^ T : Nat) : Int) := by
+        rw [h2]
+        conv_lhs => rw [hXval, hXabs]
+        rw [Nat.pow_add]
+        cases sb <;> simp <;> push_cast <;> ring
+      refine ⟨h1, ?_, ?_, ?_⟩
+      · intro h0; rw [h0] at hYabs
+        simp only [Int.natAbs_zero] at hYabs
+        have : 0 < O / 2 ^ k * 2 ^ (T + k) := Nat.mul_pos hq1 (Nat.two_pow_pos _)
+        omega
+      · rw [hdiff]
+        rw [hgen, hXabs]
+        have hpT := Nat.two_pow_pos T
+        have : O % 2 ^ k < O / 2 ^ k * 2 ^ k + O % 2 ^ k := by
+          have : 2 ^ k ≤ O / 2 ^ k * 2 ^ k := Nat.le_mul_of_pos_left _ (by omega)
+          omega
+        exact Nat.mul_lt_mul_of_lt_of_le this (Nat.le_refl _) hpT
+      · rw [h2]
+        have : ((O / 2 ^ k * 2 ^ (T + k) : Nat) : Int) = ((2 ^ T : Nat) : Int) * ((O / 2 ^ k * 2 ^ k : Nat) : Int) := by
+          push_cast; rw [pow_add]; ring
+        rw [this]
+        exact Dvd.dvd.mul_left (Dvd.intro _ rfl) _
 
 end FAVerif.Conv
